@@ -65,6 +65,11 @@ def run(ctx):
                 sc["extras"] = [dict(m) for m in rng.choice(SIGPLANS)]
                 fam.append(sc)
             cases.append((len(cases), fam))
+    if ctx.thorough and not ctx.replay:
+        from harness import fixtures
+        sl = fixtures.slices("quantised")
+        for a, b in zip(sl, sl[1:]):
+            cases.append((len(cases), [{k: x[k] for k in ("notes", "extras", "dur")} for x in (a, b)]))
     obs = pmap(execute, cases, chunk=300)
     for i, o in enumerate(obs):
         o["id"] = i
